@@ -4,7 +4,7 @@ import itemgen as G, refmodel as R, glayer, blayer as B
 from common import Expander
 
 LEVEL = "exploration"
-G_UNITS = {"kinds": ["HelperAttributeKinds::is_match_cmp_attr", "HelperAttributeKinds::extend", "HelperAttributesForCompareOp::from_attrs", "build_from_derive_input"], "entry": ["DeriveEntry::from_args_list"], "implitem": ["Args::from_attr_args"]}
+G_UNITS = {"kinds": ["HelperAttributeKinds::is_match_cmp_attr", "HelperAttributeKinds::extend", "HelperAttributesForCompareOp::from_attrs", "build_from_derive_input"], "entry": ["DeriveEntry::from_args_list"], "implitem": ["Args::from_attr_args", "is_root_derive_ex_attr"]}
 ENTRY_ITEMS = {"Eq": 2, "Add": 4, "Sub": 4, "Mul": 4, "BitAnd": 4, "Shl": 4, "AddAssign": 2, "SubAssign": 2, "ShrAssign": 2, "Neg": 2, "Not": 2}
 
 
